@@ -619,7 +619,7 @@ func runC06(env *Env) {
 		alpha = append(alpha, "scan 0", "scan 1 0", "scan 2 0 1", "exp")
 		depth := 3
 		if env.Thorough() {
-			depth = 5
+			depth = 4
 		}
 		var rec func(prefix []string, d int)
 		rec = func(prefix []string, d int) {
